@@ -630,8 +630,8 @@ fn create_users(node: &Node, admin_session: &str) -> Result<Vec<User>, String> {
 
 pub fn build_env(ctx: &Ctx, paths: Vec<String>, templates: &[String]) -> Result<Env, String> {
     let work = work_dir(ctx);
-    let cfg_a = NodeCfg { api_login_ttl_s: 7200, console_login_ttl_s: 7200, cluster_token: "rnv-c17".into() };
-    let cfg_b = NodeCfg { api_login_ttl_s: B_TTL_S, console_login_ttl_s: B_TTL_S, cluster_token: "rnv-c17".into() };
+    let cfg_a = NodeCfg { api_login_ttl_s: 7200, console_login_ttl_s: 7200, cluster_token: "rnv-c17".into(), leaderless: false };
+    let cfg_b = NodeCfg { api_login_ttl_s: B_TTL_S, console_login_ttl_s: B_TTL_S, cluster_token: "rnv-c17".into(), leaderless: false };
     let mut nodes = Node::start_many(&work, &[("node-a", &cfg_a), ("node-b", &cfg_b)])?;
     let b = nodes.pop().ok_or("node-b missing")?;
     let a = nodes.pop().ok_or("node-a missing")?;
